@@ -128,7 +128,12 @@ class CheckC10(core.Check):
             qid = "Q%d" % n
             n += 1
             c.party(pid, role, name, rng="script:1", rec="-", **k)
-            c.op("build", pid)
+            lab = c.op("build", pid)
+            sk = k.get("s")
+            if dh == "P256" and sk is not None:
+                sb = b"" if sk == "-" else sk
+                if len(sb) <= 32 and not prims.p256_valid_scalar(sb + b"\x00" * (32 - len(sb))):
+                    c.meta[lab] = "p256-invalid-private-scalar"
             # carry on: a peer with honest keys, then let them talk (later panics count too)
             c.party(qid, "r" if role == "i" else "i", name, rng="script:2", rec="-", **peer_kw)
             c.op("build", qid)
@@ -331,7 +336,8 @@ class CheckC10(core.Check):
             res = e.res
             if e.panic:
                 msg, f = core.panic_sig(res)
-                r.viol("C10|%s|%s@%s" % (e.op, msg, f), "%s panicked in case %s (op %s): %s" % (e.op, case.id, e.label, res[:200]))
+                ctx = case.meta.get(int(e.label)) if e.label.isdigit() else None
+                r.viol("C10|%s|%s@%s%s" % (e.op, msg, f, "|" + ctx if ctx else ""), "%s panicked in case %s (op %s%s): %s" % (e.op, case.id, e.label, ", " + ctx if ctx else "", res[:200]))
                 outcome = "panic"
             elif e.ok:
                 outcome = "ok"
